@@ -32,3 +32,11 @@ Proof. vm_compute. split; reflexivity. Qed.
 Lemma yield_retry_keeps_invocation_holds :
   yield_retry_keeps_invocation gen_yield_retry_keeps_invocation = true.
 Proof. vm_compute. reflexivity. Qed.
+
+Lemma yield_stops_timer_before_retry_holds :
+  yield_stops_timer_before_retry gen_yield_stops_timer_before_retry = true.
+Proof. vm_compute. reflexivity. Qed.
+
+Lemma cancel_waits_only_if_interrupt_sent_holds :
+  cancel_waits_only_if_interrupt_sent gen_cancel_waits_only_if_interrupt_sent = true.
+Proof. vm_compute. reflexivity. Qed.
